@@ -1,6 +1,7 @@
 CONSTANTS
   LitPlusSet = {TRUE, FALSE}
   Utf8Set = {TRUE, FALSE}
+  SaslSet = {TRUE, FALSE}
 INIT Init
 NEXT Next
 INVARIANTS TypeOK ContOnlyWhenWilling PayloadOnlyAsArgument
